@@ -170,7 +170,7 @@ def _GridWorld(case, rng):
     sp_ = rng.choice([0, 0.3, 1.0, 1.0] * 3 + [1e-10, 1 - 1e-10, 2.0 ** -40])      # and moves that almost never / almost always succeed
     step = rng.choice([-1, 0, -0.5])
     fr = rng.choice([None, {"g": 5, "x": -10, "a": 2}, {"x": -3}])
-    absf = rng.choice([("g",), ("g", "x")])
+    absf = rng.choice([("g",), ("g", "x"), ["g"], ["g", "x"]])       # tuples or lists: both are containers of features
     gamma = rng.choice([1.0, 0.95, 0.5])
     params = dict(layout=rows, success_prob=sp_, step_cost=step, feature_rewards=fr, absorbing_features=list(absf),
                   discount_rate=gamma)
